@@ -20,6 +20,10 @@ ENTRY = dict(
                    "an answer never carries the same virtual timestamp as a timeout (quantised).",
         clauses={
             "set-up finishes within retries x timeout once sensor data has been seen": "theorem (completes, loaded_within)",
+            "the machine's configuration is the source's: the device's own request table and order, the sensor-data gate, request defaults, loop test, retry class, error-list argument, which handlers wait for product information":
+                "table (ecomax_cfg, setup_source_facts, product_waiters, request_loop_matches: decide lemmas over Generated/Pipeline.lean, read by the translator from inspect.signature / the ast of request, async_setup and the __init__ subscriptions)",
+            "set-up over the wire: first frames back-to-back, the client's device from get(), requests counted on the transport, answers with an empty body":
+                "correspondence (harness/c16proto.py: real AsyncProtocol against a scripted controller, judged by C16.spec and compared with the Setup machine)",
             "every unanswered kind is listed as failed": "theorem (errors_exact, unanswered_listed)",
             "no answered kind listed as long as product information was answered": "theorem (answered_not_listed)",
             "each unanswered request transmitted `retries` times": "theorem (failed_transmitted_R_times, transmitted_at_most_R_times); C16.spec also rejects a failed list with duplicate entries (proved of the machine in spec_loaded); NOT yet in spec: transmissions of an ANSWERED kind <= the attempt on which it (and, for dependent kinds, product information) was answered — compared by correspondence only (tx counts are part of the model <-> implementation comparison)",
